@@ -75,6 +75,11 @@ func genSubject(r *Rng, tag string) []RDN {
 		}
 		out = append(out, RDN{k, v})
 	}
+	if r.Chance(1, 10) {
+		// an attribute value given as #hex: the DER of the value itself (a BIT STRING, an OCTET STRING,
+		// an INTEGER, a BMPString, NULL, an empty SEQUENCE, a UTF8String)
+		out = append(out, RDN{Pick(r, []string{"2.5.4.45", "1.2.3.4", "O", "2.5.4.5"}), Pick(r, []string{"#03020001", "#040201ff", "#020105", "#1e020041", "#0500", "#3000", "#0c0141", "#130141"})})
+	}
 	// make subjects distinct per entity
 	out = append(out, RDN{"CN", tag + " " + Pick(r, words)})
 	return out
